@@ -120,6 +120,8 @@ def gen_case(seed, tier='quick'):
     paths = rng.sample(PATHS, rng.choice([1, 1, 2, 3]))
     ops = []
     compiled = rng.random() < 0.75
+    partial = (not compiled) and len(world['sheets']) > 1 and \
+        world.get('xlsx') is None and rng.random() < 0.4
     child_p = 1.0 if tier == 'thorough' else 0.125
     use_child = rng.random() < child_p
 
@@ -212,7 +214,7 @@ def gen_case(seed, tier='quick'):
     if last_p and not any(o['op'] == 'restore' for o in ops[
             ops.index(last_p[-1]):]):
         ops.append(restore(last_p[-1]['path']))
-    knobs = {'compiled_at_start': compiled,
+    knobs = {'compiled_at_start': 'partial' if partial else compiled,
              'fault_class': 'faulty' if faulty else 'fault_free'}
     return {'property': ID, 'seed': seed, 'knobs': knobs, 'world': world,
             'ops': ops}
@@ -246,7 +248,10 @@ def _run(case, fs, amb):
     model = worlds.world_model(
         world, stale=True, build_code=case['knobs'].get(
             'compiled_at_start', True))
-    compiled = case['knobs'].get('compiled_at_start', True)
+    compiled = case['knobs'].get('compiled_at_start', True) is True
+    fs.clock = amb.clock
+    if case['knobs'].get('compiled_at_start') == 'partial':
+        bump('probe:partly_compiled_model')
     evaluated = False
     reuse = {}
     snaps = {}      # path -> {'dump', 'values' | None, 'state'}
@@ -261,7 +266,7 @@ def _run(case, fs, amb):
             break
         bump('ops')
         kind = op['op']
-        amb.clock.jump(1.0)
+        amb.clock.jump(0.3 if seq % 3 else 1.0)
         if model is None and kind != 'restore':
             log.append([seq, kind, 'skipped: no live model after crash'])
             continue
